@@ -6,6 +6,7 @@ variable, a line or a text fragment.
 
 PC = "PolynomialCommitment"
 SPONGE_TRAIT = "ark_crypto_primitives::sponge::CryptographicSponge"
+ORACLE_TRAITS = ("digest::Digest",)
 RNG_TRAITS = ("rand::RngCore", "rand_core::RngCore", "rand::Rng", "rand::CryptoRng")
 
 # scalar-field type strings as rustc prints them in the bodies of the respective schemes
